@@ -8,5 +8,6 @@ GNext ==
   \/ \E s \in Svcs, d \in Dirs : Upload(s, d) /\ H([a |-> "Upload", s |-> s, d |-> d])
   \/ \E s \in Svcs, d \in Dirs : Uploaded(s, d) /\ H([a |-> "Uploaded", s |-> s, d |-> d])
   \/ \E s \in Svcs, d \in Dirs : Failed(s, d) /\ H([a |-> "Failed", s |-> s, d |-> d])
+  \/ \E s \in Svcs, d \in Dirs : FetchFailed(s, d) /\ H([a |-> "FetchFailed", s |-> s, d |-> d])
 GSpec == GInit /\ [][GNext]_<<vars, hist>>
 ====
